@@ -13,6 +13,7 @@ the monitor checks it by decoding buffers placed inside a sentinel-filled arena.
 import LA.Proofs.ClientCmd
 import LA.Proofs.Uapi
 import LA.Gen.ClientConsts
+import LA.Gen.ClientFacts
 
 namespace LA.Client
 open LA.Netlink LA.Spec
@@ -279,5 +280,24 @@ example : fromWire { featureBitmap := 7, backlogWaitTime := 8, backlogWaitTimeAc
     some { mask := 16843009, enabled := 16843009, failure := 16843009, pid := 16843009, rateLimit := 16843009,
            backlogLimit := 16843009, lost := 16843009, backlog := 16843009 } := by
   decide
+
+/-- the receiver used by the translator's probe: all eleven fields 0xAAAAAAAA -/
+def probeRecv : Status :=
+  { mask := 2863311530, enabled := 2863311530, failure := 2863311530, pid := 2863311530, rateLimit := 2863311530,
+    backlogLimit := 2863311530, lost := 2863311530, backlog := 2863311530, featureBitmap := 2863311530,
+    backlogWaitTime := 2863311530, backlogWaitTimeActual := 2863311530 }
+
+/-- FromWireFormat as a function of the buffer length, tied to the running library for every length
+0..80 (below, between and above the two size thresholds, lengths that end inside a field
+included): `Gen.ClientFacts.fromWireByLength` is regenerated on every run by decoding a buffer of
+that many 0x55 bytes into a receiver full of 0xAA, so each byte of the result says whether it was
+copied, zeroed or left over; the model's `fromWire` yields the same error / the same eleven words
+for every length in the table. (For arbitrary contents see `C16_from_wire_partial`,
+`C16_from_wire_trailing`, `C16_from_wire_receiver_irrelevant`.) -/
+theorem C16_from_wire_by_length :
+    (LA.Gen.ClientFacts.fromWireByLength.map (·.1) = List.range 81) ∧
+    ∀ e ∈ LA.Gen.ClientFacts.fromWireByLength,
+      (fromWire probeRecv (List.replicate e.1 (85 : UInt8))).map Status.words = e.2 := by
+  decide +kernel
 
 end LA.Client
